@@ -55,6 +55,7 @@ type GRCfg struct {
 	NotifEnabled bool     `json:"notif,omitempty"`        // N bit both sides
 	LLGR         bool     `json:"llgr,omitempty"`
 	LLGRTime     int      `json:"llgr_time,omitempty"`
+	LLGRTime6    int      `json:"llgr_time_v6,omitempty"` // the neighbour's long-lived stale time for IPv6 (0: as LLGRTime)
 	LLGRFamilies []string `json:"llgr_families,omitempty"`
 	PeerLLGR     bool     `json:"peer_llgr,omitempty"` // peer announces LLGR capability (observer capable)
 	Deferral     int      `json:"deferral,omitempty"`
